@@ -353,3 +353,16 @@ unsafe impl<const MAX_STREAMS:  usize>
 Sync for
 StreamsManagerBase<MAX_STREAMS> {}
 
+
+#[cfg(feature = "verif")]
+impl<const MAX_STREAMS: usize>
+crate::verif::VerifState for
+StreamsManagerBase<MAX_STREAMS> {
+    fn verif_state(&self, out: &mut Vec<u64>) {
+        self.vacant_streams.verif_state(out);
+        for id in unsafe { &*self.used_streams.get() }.iter() { out.push(*id as u64) }
+        out.push(self.used_streams_count.raw().load(Relaxed) as u64);
+        for keep in unsafe { &*self.keep_streams_running.get() }.iter() { out.push(*keep as u64) }
+        for waker in unsafe { &*self.wakers.get() }.iter() { out.push(waker.is_some() as u64) }
+    }
+}
